@@ -12,6 +12,7 @@ import (
 	"fmt"
 	"os"
 	"path/filepath"
+	"runtime"
 	"sort"
 	"strings"
 	"sync"
@@ -61,6 +62,7 @@ type e2World struct {
 	// hold, when set, keeps an actor from being chosen while any other actor is enabled
 	hold     func(a *vs.Actor) bool
 	heldBack int
+	pollExit []string
 	// atClose runs at teardown (listeners, temp files)
 	atClose []func()
 }
@@ -190,7 +192,21 @@ func newE2World(t *rapid.T, npolls int, replay []vs.Step) *e2World {
 	vs.Install(w.s)
 	for i, p := range w.polls {
 		p := p
-		w.s.Go(fmt.Sprintf("poller%d", i), true, func() { p.Wait() })
+		w.s.Go(fmt.Sprintf("poller%d", i), true, func() {
+			defer func() {
+				// a panic in the poller goroutine kills a production process: recorded like the escaped panics of netpoll's own goroutines
+				if r := recover(); r != nil {
+					buf := make([]byte, 4096)
+					w.mu.Lock()
+					w.s.Crashes = append(w.s.Crashes, fmt.Sprintf("poller loop panicked: %v\n%s", r, buf[:runtime.Stack(buf, false)]))
+					w.mu.Unlock()
+				}
+			}()
+			err := p.Wait()
+			w.mu.Lock()
+			w.pollExit = append(w.pollExit, fmt.Sprintf("poller loop returned: %v (step %d)", err, w.s.StepCount()))
+			w.mu.Unlock()
+		})
 	}
 	return w
 }
@@ -575,4 +591,18 @@ func (w *e2World) directF13() {
 		}
 		return 0
 	}
+}
+
+// e2Confirmed re-executes a failing case from its recorded decisions in a fresh world. An E2 run is a
+// function of (scenario, decision list), so a genuine violation reproduces; a failure that does not is
+// interference from outside the case (it has been seen, very rarely, on a heavily loaded machine) and is
+// counted, not reported.
+func e2Confirmed(st *vStats, w *e2World, replay func(decisions []vs.Step) string) bool {
+	dec := w.trace()
+	w.close()
+	if sig2 := replay(dec); sig2 != "" {
+		return true
+	}
+	st.class("unreproduced-failure-discarded")
+	return false
 }
